@@ -97,10 +97,11 @@ where
         let state = self.stack.last().unwrap().state;
 
         let span = if states == 0 {
-            // EMPTY reduction
+            // EMPTY reduction: zero-width span at the end of the last
+            // shifted token (context span is the span of that token).
             SourceSpan {
-                start: context.span().start,
-                end: context.span().start,
+                start: context.span().end,
+                end: context.span().end,
             }
         } else {
             SourceSpan {
